@@ -525,17 +525,38 @@ func taintScan(p *Program, pkgs map[string]bool) []taintFinding {
 				if !all[x.X] || !lossy(x) {
 					return
 				}
-				use, what := boundUse(x, 6, map[ssa.Value]bool{})
-				if use == nil {
-					return
+				var uses []ssa.Instruction
+				what := ""
+				for _, u := range boundUsesAll(x, 6, map[ssa.Value]bool{}, map[ssa.Instruction]bool{}) {
+					if _, isMake := u.in.(*ssa.MakeSlice); isMake {
+						continue // reported by the alloc rule
+					}
+					uses = append(uses, u.in)
+					if what == "" {
+						what = u.what
+					}
 				}
-				if _, isMake := use.(*ssa.MakeSlice); isMake {
-					return // reported by the alloc rule
+				if len(uses) == 0 {
+					return
 				}
 				roots := map[ssa.Value]bool{}
 				rootsOf(x.X, src, 8, roots)
 				fam, _ := taintClosure(roots)
-				ok, why := sanitizedAt(fn, use, raw, fam)
+				ok, why := true, ""
+				for _, use := range uses {
+					o, w := sanitizedAt(fn, use, raw, fam)
+					if !o {
+						// re-slicing a buffer behind the edge on which it is large enough
+						if sl, isSl := use.(*ssa.Slice); isSl && capGuarded(sl, x) {
+							o, w = true, "re-slice behind a capacity test of the same buffer"
+						}
+					}
+					if !o {
+						ok, why = false, ""
+						break
+					}
+					why = w
+				}
 				out = append(out, taintFinding{fn, in, "conv-bound", fmt.Sprintf("decoded length converted %s→%s and used as %s%s", x.X.Type(), x.Type(), what, ifs(why != "", " ("+why+")", "")), ok})
 			}
 		})
@@ -548,4 +569,136 @@ func ifs(c bool, a, b string) string {
 		return a
 	}
 	return b
+}
+
+type boundUseT struct {
+	in   ssa.Instruction
+	what string
+}
+
+// boundUsesAll returns every instruction that uses v (through +,-,phi) as a bound.
+func boundUsesAll(v ssa.Value, depth int, seen map[ssa.Value]bool, got map[ssa.Instruction]bool) []boundUseT {
+	if depth <= 0 || seen[v] {
+		return nil
+	}
+	seen[v] = true
+	refs := v.Referrers()
+	if refs == nil {
+		return nil
+	}
+	var out []boundUseT
+	add := func(in ssa.Instruction, what string) {
+		if !got[in] {
+			got[in] = true
+			out = append(out, boundUseT{in, what})
+		}
+	}
+	for _, r := range *refs {
+		switch x := r.(type) {
+		case *ssa.Slice:
+			if x.Low == v || x.High == v || x.Max == v {
+				add(x, "slice bound")
+			}
+		case *ssa.IndexAddr:
+			if x.Index == v {
+				add(x, "index")
+			}
+		case *ssa.Index:
+			if x.Index == v {
+				add(x, "index")
+			}
+		case *ssa.MakeSlice:
+			if x.Len == v || x.Cap == v {
+				add(x, "make size")
+			}
+		case *ssa.BinOp:
+			switch x.Op {
+			case token.ADD, token.SUB:
+				out = append(out, boundUsesAll(x, depth-1, seen, got)...)
+			}
+		case *ssa.Phi:
+			out = append(out, boundUsesAll(x, depth-1, seen, got)...)
+		case *ssa.Store:
+			if x.Val == v {
+				if _, ok := x.Addr.(*ssa.Parameter); ok {
+					add(x, "index variable")
+				}
+			}
+		}
+	}
+	return out
+}
+
+// capGuarded: sl is `buf[:n]` and lies behind the edge of a test `n <= cap(buf)` /
+// `n <= len(buf)` (any spelling) on the same buffer: the re-slice cannot go out of range.
+func capGuarded(sl *ssa.Slice, n ssa.Value) bool {
+	if sl.High != n || sl.Low != nil && !isZeroConst(sl.Low) {
+		return false
+	}
+	bufPath := AccessPath(sl.X)
+	if bufPath == "?" {
+		return false
+	}
+	fn := sl.Parent()
+	for _, b := range fn.Blocks {
+		ifi := ifOf(b)
+		if ifi == nil {
+			continue
+		}
+		bo, ok := ifi.Cond.(*ssa.BinOp)
+		if !ok {
+			continue
+		}
+		isCapOfBuf := func(v ssa.Value) bool {
+			call, ok := v.(*ssa.Call)
+			if !ok {
+				return false
+			}
+			bi, ok := call.Call.Value.(*ssa.Builtin)
+			if !ok || (bi.Name() != "cap" && bi.Name() != "len") || len(call.Call.Args) != 1 {
+				return false
+			}
+			if bi.Name() == "len" && sl.Max == nil {
+				// len(buf) <= cap(buf): a len test is the stronger one
+			}
+			return AccessPath(call.Call.Args[0]) == bufPath
+		}
+		// normalise to: safeOnTrue when cond true implies n <= cap
+		var safeOnTrue bool
+		switch {
+		case bo.X == n && isCapOfBuf(bo.Y):
+			switch bo.Op {
+			case token.LEQ, token.LSS:
+				safeOnTrue = true
+			case token.GTR:
+				safeOnTrue = false
+			default:
+				continue
+			}
+		case bo.Y == n && isCapOfBuf(bo.X):
+			switch bo.Op {
+			case token.GEQ, token.GTR:
+				safeOnTrue = true
+			case token.LSS:
+				safeOnTrue = false
+			default:
+				continue
+			}
+		default:
+			continue
+		}
+		succ := b.Succs[1]
+		if safeOnTrue {
+			succ = b.Succs[0]
+		}
+		if EdgeDominates(b, succ, sl.Block()) {
+			return true
+		}
+	}
+	return false
+}
+
+func isZeroConst(v ssa.Value) bool {
+	k, ok := ConstInt(v)
+	return ok && k == 0
 }
